@@ -57,6 +57,16 @@ expressions
   `Atoms(k1=e1, …)` (`ctor`)              the constructor call as DATA: (the sorted list of ALL keyword names passed, then for
                                           every keyword declared in `ctor["kwargs"]` `some value` / `none` = not passed);
                                           positional arguments are Unsupported
+batch 8 (calc_dihedrals, the type-numbering slice of assign_bond_types / assign_angle_types)
+  `g.edges`                               `Py6.nxEdges g` (networkx EdgeView iteration: nodes in order, neighbours in order, completed
+                                          nodes skipped), pinned by python assertions in tools/gen_code6_selftest.py
+  `g.adj[n]`                              `Py6.nxNeighbors g n`
+  `xs.remove(v)` (statement)              `xs ← Py6.listRemove? xs v` (first occurrence; `none` = ValueError; partial functions only)
+  `xs.index(v)`                           `Py6.listIndex? xs v` (first position; `none` = ValueError)
+  `list(dict.fromkeys(xs).keys())`        `Py6.fromkeysList xs` (distinct values in first-seen order; also without `.keys()`)
+  `obj.attr = e` (`objattr_assign`)       on a declared attribute of a parameter object: later reads of `obj.attr` see the new value
+  `if x is not None and c:`               x an optional parameter: `if x is not None: (if c: A else: B) else: B`
+  `f(xs)` for a generic callee (typekey)  the callee's element type is instantiated at the element type of `xs` (str / nat / int)
 ----------------------------------------------------------------------------------------------------------------
 """
 import ast
@@ -65,7 +75,7 @@ import os
 
 from . import core, gen_code
 from .gen_code import (Fn, V, Unsupported, STR, NAT, INT, NUM, BOOL, VEC3, MAT3, OPAQUE, NONE, INTLIT, DECLIT,   # noqa: F401
-                       LIST, SET, OPT, TUP, DICT, FUN, _join, static_param, _lean_str)
+                       LIST, SET, OPT, TUP, DICT, FUN, ELEM, _join, static_param, _lean_str)
 
 UNIT = "unit"
 SQDISTS = "sqdists"        # a column of SQUARED euclidean distances (the result of cdist; only `np.any(ss < c)` may read it)
@@ -88,6 +98,15 @@ def all_functions():
 def qualified(cfg):
     """the Lean name of a generated definition as written inside namespace Mofun.Generated.Code6"""
     return cfg["lean"] if cfg in FUNCTIONS6 else "Code." + cfg["lean"]
+
+
+def _subst_elem(t, elem):
+    """the type `t` of a generic translated function with its element type ELEM instantiated"""
+    if t == ELEM:
+        return elem
+    if isinstance(t, tuple):
+        return tuple(_subst_elem(x, elem) if isinstance(x, (str, tuple)) else x for x in t)
+    return t
 
 
 class Fn6(Fn):
@@ -155,6 +174,21 @@ class Fn6(Fn):
             ast.fix_missing_locations(new)
             return self.block([new] + list(rest), env, conts, mode)
         if isinstance(s, ast.Expr) and isinstance(s.value, ast.Call) and isinstance(s.value.func, ast.Attribute) and \
+                s.value.func.attr == "remove" and isinstance(s.value.func.value, ast.Name) and s.value.func.value.id in env and \
+                isinstance(env[s.value.func.value.id].ty, tuple) and env[s.value.func.value.id].ty[0] == "list" and \
+                env[s.value.func.value.id].items is None and len(s.value.args) == 1 and not s.value.keywords:
+            # xs.remove(v): the first occurrence of v goes; ValueError (none) when v is not in xs
+            if not self.partial:
+                self.fail(s, "list.remove (may raise ValueError) in a function declared total")
+            x = s.value.func.value.id
+            xs = env[x]
+            v = self.coerce(s, self.ex(s.value.args[0], env), xs.ty[1])
+            nm = self.lname(x)
+            e2 = dict(env)
+            e2[x] = V(nm, xs.ty, (), {nm})
+            binds = list(v.binds) + [(nm, "(Py6.listRemove? %s %s)" % (xs.term, v.term), set(xs.refs) | set(v.refs))]
+            return self.with_binds(binds, self.block(rest, e2, conts, mode))
+        if isinstance(s, ast.Expr) and isinstance(s.value, ast.Call) and isinstance(s.value.func, ast.Attribute) and \
                 s.value.func.attr == "add_edges_from" and isinstance(s.value.func.value, ast.Name) and s.value.func.value.id in env and \
                 env[s.value.func.value.id].ty == NXGRAPH and len(s.value.args) == 1 and not s.value.keywords:
             x = s.value.func.value.id
@@ -165,6 +199,20 @@ class Fn6(Fn):
             e2[x] = V(nm, NXGRAPH, (), {nm})
             return self.with_binds(bs.binds, ("let", nm, V("(Py6.nxAddEdges %s %s)" % (g.term, bs.term), NXGRAPH, (), g.refs | bs.refs),
                                               self.block(rest, e2, conts, mode)))
+        if isinstance(s, ast.Assign) and len(s.targets) == 1 and isinstance(s.targets[0], ast.Attribute) and \
+                isinstance(s.targets[0].value, ast.Name) and s.targets[0].value.id in self.cfg.get("objattrs", {}) and \
+                s.targets[0].attr in self.cfg["objattrs"][s.targets[0].value.id] and self.cfg.get("objattr_assign"):
+            # obj.attr = e on a declared attribute of a parameter object: later reads of obj.attr see the new value
+            obj, attr = s.targets[0].value.id, s.targets[0].attr
+            ty = self.cfg["objattrs"][obj][attr]
+            v = self.ex(s.value, env)
+            if v.ty == OPAQUE:
+                self.fail(s, "assignment of a value outside the subset to %s.%s" % (obj, attr))
+            v = self.coerce(s, v, ty)
+            nm = "%s_%s'" % (obj, attr)
+            e2 = dict(env)
+            e2[obj + "." + attr] = V(nm, ty, (), {nm})
+            return self.with_binds(v.binds, ("let", nm, V(v.term, ty, (), v.refs), self.block(rest, e2, conts, mode)))
         if isinstance(s, ast.Assign) and len(s.targets) == 1 and isinstance(s.targets[0], ast.Name) and "self" in env and \
                 ast.unparse(s.value) == "self.copy()" and s.targets[0].id not in self.cfg.get("attrs", {}):
             # x = self.copy(): a deep copy; x.attr is self.attr as of now
@@ -198,6 +246,18 @@ class Fn6(Fn):
 
     def if_ir(self, s, rest, env, conts, mode):
         t = s.test
+        if isinstance(t, ast.BoolOp) and isinstance(t.op, ast.And) and len(t.values) >= 2:
+            t0 = t.values[0]
+            if isinstance(t0, ast.Compare) and len(t0.ops) == 1 and isinstance(t0.ops[0], ast.IsNot) and isinstance(t0.left, ast.Name) and \
+                    isinstance(t0.comparators[0], ast.Constant) and t0.comparators[0].value is None and t0.left.id in env and \
+                    isinstance(env[t0.left.id].ty, tuple) and env[t0.left.id].ty[0] == "opt":
+                # `if x is not None and c: A else: B` (python evaluates c only when x is not None)  ==>
+                # `if x is not None: (if c: A else: B) else: B`
+                restc = t.values[1] if len(t.values) == 2 else ast.copy_location(ast.BoolOp(op=ast.And(), values=t.values[1:]), t)
+                inner = ast.copy_location(ast.If(test=restc, body=s.body, orelse=s.orelse), s)
+                outer = ast.copy_location(ast.If(test=t0, body=[inner], orelse=s.orelse), s)
+                ast.fix_missing_locations(outer)
+                return super().if_ir(outer, rest, env, conts, mode)
         if isinstance(t, ast.Compare) and len(t.ops) == 1 and isinstance(t.ops[0], (ast.Is, ast.IsNot)) and \
                 isinstance(t.comparators[0], ast.Constant) and t.comparators[0].value is None and isinstance(t.left, ast.Attribute) and \
                 isinstance(t.left.value, ast.Name) and (t.left.value.id + "." + t.left.attr) in env and \
@@ -296,6 +356,9 @@ class Fn6(Fn):
         if node.attr == "nodes" and isinstance(node.value, ast.Name) and node.value.id in env and env[node.value.id].ty == NXGRAPH:
             g = env[node.value.id]
             return V("(Py6.nxNodes %s)" % g.term, LIST(NAT), g.binds, g.refs)
+        if node.attr == "edges" and isinstance(node.value, ast.Name) and node.value.id in env and env[node.value.id].ty == NXGRAPH:
+            g = env[node.value.id]
+            return V("(Py6.nxEdges %s)" % g.term, LIST(TUP(NAT, NAT)), g.binds, g.refs)
         if isinstance(node.value, ast.Name) and node.value.id != "self" and (node.value.id + "." + node.attr) in env and \
                 node.value.id in env and env[node.value.id].ty == OPAQUE and node.value.id not in self.cfg.get("objattrs", {}):
             return env[node.value.id + "." + node.attr]         # an attribute of a copy of self
@@ -316,6 +379,16 @@ class Fn6(Fn):
 
     def ex_Subscript(self, node, env, want):
         sl = node.slice
+        # g.adj[n] on a networkx graph: the neighbours of n (iterating the adjacency dict gives its keys)
+        if isinstance(node.value, ast.Attribute) and node.value.attr == "adj" and isinstance(node.value.value, ast.Name) and \
+                node.value.value.id in env and env[node.value.value.id].ty == NXGRAPH and not isinstance(sl, ast.Slice):
+            g = env[node.value.value.id]
+            n = self.ex(sl, env)
+            if n.ty == OPAQUE:
+                return n
+            n = self.coerce(node, n, NAT)
+            binds, refs = _join(g, n)
+            return V("(Py6.nxNeighbors %s %s)" % (g.term, n.term), LIST(NAT), binds, refs)
         # xs[e:] on a list
         if isinstance(sl, ast.Slice) and sl.upper is None and sl.step is None and sl.lower is not None:
             base = self.ex(node.value, env)
@@ -385,6 +458,31 @@ class Fn6(Fn):
             if not (isinstance(xs.ty, tuple) and xs.ty[0] == "list") or xs.items is not None:
                 self.fail(node, "combinations of %s" % (xs.ty,))
             return V("(Py6.combinations2 %s)" % xs.term, LIST(TUP(xs.ty[1], xs.ty[1])), xs.binds, xs.refs)
+        # list(dict.fromkeys(xs).keys()) / list(dict.fromkeys(xs)): the distinct values in first-seen order
+        if fname == "list" and "list" not in env and len(node.args) == 1 and not kw:
+            inner = node.args[0]
+            if isinstance(inner, ast.Call) and isinstance(inner.func, ast.Attribute) and inner.func.attr == "keys" and not inner.args and not inner.keywords:
+                inner = inner.func.value
+            if isinstance(inner, ast.Call) and ast.unparse(inner.func) == "dict.fromkeys" and "dict" not in env and len(inner.args) == 1 and \
+                    not inner.keywords:
+                xs = self.ex(inner.args[0], env)
+                if xs.ty == OPAQUE:
+                    return xs
+                if not (isinstance(xs.ty, tuple) and xs.ty[0] == "list") or xs.items is not None:
+                    self.fail(node, "dict.fromkeys of %s" % (xs.ty,))
+                return V("(Py6.fromkeysList %s)" % xs.term, xs.ty, xs.binds, xs.refs)
+        # xs.index(v) on a list: the position of the first occurrence; ValueError (none) when there is none
+        if isinstance(f, ast.Attribute) and f.attr == "index" and isinstance(f.value, ast.Name) and f.value.id in env and \
+                isinstance(env[f.value.id].ty, tuple) and env[f.value.id].ty[0] == "list" and env[f.value.id].items is None and \
+                len(node.args) == 1 and not kw:
+            xs = env[f.value.id]
+            v = self.ex(node.args[0], env)
+            if v.ty == OPAQUE:
+                return v
+            v = self.coerce(node, v, xs.ty[1])
+            binds, refs = _join(xs, v)
+            r = self.rebind("(Py6.listIndex? %s %s)" % (xs.term, v.term), NAT, refs)
+            return V(r.term, NAT, binds + r.binds, r.refs)
         # range(n)
         if fname == "range" and "range" not in env and len(node.args) == 1 and not kw:
             n = self.ex(node.args[0], env)
@@ -415,13 +513,21 @@ class Fn6(Fn):
                 return V.opaque()
             if len(args) != len(other["params"]):
                 self.fail(node, "call of %s with %d arguments" % (f.id, len(args)))
-            args = [self.coerce(node, a_, t) for a_, (_, t) in zip(args, other["params"])]
+            ptys, rty = [t for _, t in other["params"]], other["ret"]
+            if any(t == LIST(ELEM) for t in ptys):
+                # a generic callee (typekey): its element type is that of the list passed
+                elems = {a_.ty[1] for a_, t in zip(args, ptys) if t == LIST(ELEM) and isinstance(a_.ty, tuple) and a_.ty[0] == "list"}
+                if len(elems) != 1 or not elems <= {STR, NAT, INT}:
+                    self.fail(node, "call of the generic %s with element types %r" % (f.id, sorted(map(str, elems))))
+                elem = elems.pop()
+                ptys, rty = [_subst_elem(t, elem) for t in ptys], _subst_elem(rty, elem)
+            args = [self.coerce(node, a_, t) for a_, t in zip(args, ptys)]
             binds, refs = _join(*args)
             term = "(%s %s)" % (qualified(other), " ".join(a_.term for a_ in args))
             if other.get("partial"):
-                r = self.rebind(term, other["ret"], refs)
-                return V(r.term, other["ret"], binds + r.binds, r.refs)
-            return V(term, other["ret"], binds, refs)
+                r = self.rebind(term, rty, refs)
+                return V(r.term, rty, binds + r.binds, r.refs)
+            return V(term, rty, binds, refs)
         # distance.cdist(rows, [b], "euclidean"): the column of SQUARED distances to one point
         if fname == "distance.cdist" and "distance" not in env and not kw and len(node.args) == 3 and \
                 isinstance(node.args[2], ast.Constant) and node.args[2].value == "euclidean" and \
@@ -611,6 +717,38 @@ FUNCTIONS6 += [
          doc="; `bonds` is the list of the rows of the (n, 2) array; the result is the list of the rows `(a, n, b)` in the order they are appended"),
 ]
 
+FUNCTIONS6 += [
+    # ---- batch 8, item 1: calc_dihedrals
+    dict(file="mofun/rough_uff.py", py="calc_dihedrals", lean="calcDihedrals", params=[("bonds", LIST(TUP(NAT, NAT)))], nested_loops=True,
+         partial=True, np_array_rows=True, locals={"dihedrals": LIST(LIST(NAT))}, ret=LIST(LIST(NAT)),
+         doc="; `bonds` is the list of the rows of the (n, 2) array; the result is the list of the rows `(a1, a, b, b1)` in the order they are "
+             "appended; `none` = ValueError of `list.remove` (the equivalence theorem shows it does not happen)"),
+]
+
+FUNCTIONS6 += [
+    # ---- batch 8, item 2: the type-numbering slice of assign_bond_types / assign_angle_types
+    dict(file="mofun/rough_uff.py", py="assign_bond_types", lean="assignBondTypeIds", slice=True, partial=True, objattr_assign=True,
+         fragment=[("stmt", "atoms.bond_types = then (atoms.bonds, atoms.bond_types)")],
+         params=[("uff_atom_types", LIST(STR)), ("exclude", OPT(SET(NAT)))],
+         objattrs={"atoms": {"bonds": LIST(LIST(NAT)), "bond_types": LIST(NAT)}},
+         module_calls={"typekey": ("typekey", "mofun.helpers"), "delete_if_all_in_set": ("deleteIfAllInSet", None)},
+         ret=TUP(LIST(LIST(NAT)), LIST(NAT)),
+         doc=" (FRAGMENT: the type-numbering slice — the `exclude` guard (`len(exclude) >= 2`, exclude a python set) with "
+             "`delete_if_all_in_set`, the keys `typekey([uff_atom_types[a] for a in atup])`, their first-seen unique list, the position of "
+             "every key in it; the result is (atoms.bonds, atoms.bond_types) right after the assignment of atoms.bond_types; "
+             "`none` = IndexError of `uff_atom_types[a]` / ValueError of `list.index`)"),
+    dict(file="mofun/rough_uff.py", py="assign_angle_types", lean="assignAngleTypeIds", slice=True, partial=True, objattr_assign=True,
+         fragment=[("stmt", "atoms.angle_types = then (atoms.angles, atoms.angle_types)")],
+         params=[("uff_atom_types", LIST(STR)), ("exclude", OPT(SET(NAT)))],
+         objattrs={"atoms": {"angles": LIST(LIST(NAT)), "angle_types": LIST(NAT)}},
+         module_calls={"typekey": ("typekey", "mofun.helpers"), "delete_if_all_in_set": ("deleteIfAllInSet", None)},
+         ret=TUP(LIST(LIST(NAT)), LIST(NAT)),
+         doc=" (FRAGMENT: the type-numbering slice — the `exclude` guard (`len(exclude) >= 3`, exclude a python set) with "
+             "`delete_if_all_in_set`, the keys `typekey([uff_atom_types[a] for a in atup])`, their first-seen unique list, the position of "
+             "every key in it; the result is (atoms.angles, atoms.angle_types) right after the assignment of atoms.angle_types; "
+             "`none` = IndexError of `uff_atom_types[a]` / ValueError of `list.index`)"),
+]
+
 PRELUDE6 = r'''/- GENERATED on every run by harness/gen_code6.py from the sources of /repo — do not edit.
    Python → Lean translation, batch 6 (container operations, bond detection, term enumeration); the supported subset is
    documented in gen_code.py and gen_code6.py.  `Mofun.Generated.Py6` is the fixed prelude of the primitives this batch adds;
@@ -687,6 +825,28 @@ def nxNodes (g : NxGraph) : List Nat := dedup (g.edges.flatMap (fun e => [e.1, e
     repetition, direction ignored (a self-loop `(n, n)` puts `n` into its own list) -/
 def nxNeighbors (g : NxGraph) (n : Nat) : List Nat :=
   dedup (g.edges.filterMap (fun e => if e.1 = n then some e.2 else if e.2 = n then some e.1 else none))
+
+/-- networkx `EdgeView.__iter__` (`seen = {}; for n, nbrs in adjacency: for nbr in nbrs: if nbr not in seen: yield (n, nbr); seen[n] = 1`):
+    `seen` = the nodes already completed -/
+def nxEdgesFrom (g : NxGraph) : List Nat → List Nat → List (Nat × Nat)
+  | [], _ => []
+  | n :: rest, seen =>
+      ((nxNeighbors g n).filter (fun m => !seen.contains m)).map (fun m => (n, m)) ++ nxEdgesFrom g rest (n :: seen)
+
+/-- `list(g.edges)`: for every node `n` in the order of `g.nodes`, `(n, m)` for every neighbour `m` of `n` (in the order of `g.adj[n]`)
+    that is not a node already completed — every undirected edge once, seen from its first-listed end point; a self-loop once, as `(n, n)` -/
+def nxEdges (g : NxGraph) : List (Nat × Nat) := nxEdgesFrom g (nxNodes g) []
+
+/-- `xs.remove(v)` on a list: the first occurrence of `v` is removed; `none` = ValueError (`v` is not in `xs`) -/
+def listRemove? {α} [DecidableEq α] (xs : List α) (v : α) : Option (List α) :=
+  if xs.contains v then some (xs.erase v) else none
+
+/-- `list(dict.fromkeys(xs).keys())` = `list(dict.fromkeys(xs))`: the distinct values of `xs` in first-seen order (dicts keep
+    insertion order; a key seen again keeps its first position) -/
+def fromkeysList {α} [DecidableEq α] (xs : List α) : List α := dedup xs
+
+/-- `xs.index(v)` on a list: the position of the first occurrence of `v`; `none` = ValueError (`v` is not in `xs`) -/
+def listIndex? {α} [DecidableEq α] (xs : List α) (v : α) : Option Nat := indexOf? xs v
 
 /-- `itertools.combinations(xs, 2)`: `(xs[i], xs[j])` for `i < j`, in lexicographic order of `(i, j)` -/
 def combinations2 {α} : List α → List (α × α)
